@@ -134,6 +134,20 @@ def layouts(n, numberings='all', base=0):
     return res
 
 
+WIDE_NUMBERS = [10000, 99999, 100000, 100001, 1000000]
+
+
+def wide_numbers(lay, first=1):
+    """the same layout with file numbers of DIFFERENT widths (AMReX writes more digits beyond Cell_D_99999): the files keep
+    their relative numeric order; as text `Cell_D_100000` sorts before `Cell_D_99999`, and `Cell_D_10000` is a prefix of
+    `Cell_D_100000`.  first=1: numbers 99999, 100000, ...; first=0: 10000, 99999, 100000, ..."""
+    order = sorted(range(len(lay["nums"])), key=lambda i: lay["nums"][i])
+    nums = [None] * len(order)
+    for rank, i in enumerate(order):
+        nums[i] = WIDE_NUMBERS[(first + rank) % len(WIDE_NUMBERS)] if first + rank < len(WIDE_NUMBERS) else 1000000 + rank
+    return {"files": [list(f) for f in lay["files"]], "nums": nums}
+
+
 def layout_is_trivial(lay):
     """single file, boxes on disk in box order"""
     return len(lay["files"]) == 1 and lay["files"][0] == sorted(lay["files"][0])
